@@ -46,6 +46,36 @@ def _bool_eval(node, env):
     raise AnalysisError('C09.R1', f'the cache guard contains `{ast.unparse(node)[:50]}`, which is not a boolean combination of flags')
 
 
+def r1_any(run: Run, src):
+    """the facade decided by evaluation of setter / request histories (rules/parser_eval.py); the structural reading (guard truth
+    table, setters raise a flag on every path, kept intermediates) counts in addition where the code can be read"""
+    from . import parser_eval
+    evaluated = False
+    sub = Run('tmp', run.tier, run.seed, quiet=True)
+    try:
+        parser_eval.evaluate_histories(sub, 'C09.R1', src)
+        evaluated = True
+    except AnalysisError as e:
+        run.note(f'C09.R1: the facade by structure only ({e.reason[:120]})')
+    if not evaluated:
+        return r1(run, src)
+    for o in sub.obligations:
+        if o['verdict'] == 'holds':
+            run.ok(o['rule'], o['construct'], o['fact'], loc=o['loc'])
+    for f_ in sub.findings:
+        run.bad(f_['rule'], f_['construct'], f_['sub'], f_['message'], loc=f_['loc'])
+    sub2 = Run('tmp', run.tier, run.seed, quiet=True)
+    try:
+        r1(sub2, src)
+    except AnalysisError as e:
+        run.note(f'C09.R1: the structural reading gave up ({e.reason[:120]}); the evaluated histories decide')
+    for o in sub2.obligations:
+        if o['verdict'] == 'holds':
+            run.ok(o['rule'], o['construct'], o['fact'], loc=o['loc'])
+    for f_ in sub2.findings:
+        run.bad(f_['rule'], f_['construct'], f_['sub'], f_['message'], loc=f_['loc'])
+
+
 def r1(run: Run, src):
     p = src.cls('Parser')
     if p.methods.get('_translate') is None:
@@ -360,7 +390,7 @@ def run(run: Run):
     run.rule('C09.R2', 'written = returned')
     run.rule('C09.R3', 'no nondeterminism source on the translation path')
     run.rule('C09.R4', 'global writes are confirmed, guarded and argument-independent; fresh Context')
-    run.guard('C09.R1', r1, run, src)
+    run.guard('C09.R1', r1_any, run, src)
     run.guard('C09.R2', r2, run, src)
     run.guard('C09.R3', r3_r4, run, src, cg)
     # values that reach repr() must have a deterministic repr: the reader stores plain data, array formulas as text (C18.R3)
